@@ -44,6 +44,7 @@ pub fn deep_blocks(spec: SpecId) -> Vec<Case> {
         blocks::incr_same_slot(spec, 3),
         blocks::indirect_chain(spec, 3),
         blocks::late_write_chain(spec),
+        blocks::early_write_chain(spec),
     ]
 }
 
